@@ -68,7 +68,8 @@ BEHAVE_STRIP_STEPS_WITH_TRAILING_COLON = os.environ.get(
 def parse_file(filename, language=None):
     with open(filename, "rb") as f:
         # file encoding is assumed to be utf8. Oh, yes.
-        data = f.read().decode("utf8")
+        # -- NOTE: "utf-8-sig" skips an optional byte-order mark (BOM).
+        data = f.read().decode("utf-8-sig")
     return parse_feature(data, language, filename)
 
 
